@@ -15,7 +15,7 @@ import (
 	"strings"
 )
 
-var inertCalls = []string{"len", "fmt.", "log.", "time.Now", "k8s.NodePodsRemaining", "now.Sub", "opts.nodeGroup.Opts."}
+var inertCalls = []string{"len", "fmt.", "log.", "time.Now", "time.Since", "k8s.NodePodsRemaining", "now.Sub", "opts.nodeGroup.Opts."}
 
 func callsAllowed(e ast.Expr) bool {
 	ok := true
@@ -308,6 +308,76 @@ func genAwsGuards(repo, out string) {
 	}
 	fmt.Fprintf(&b, "def numAwsUnknown : Nat := %d\n\nend Esc.Gen\n", total)
 	writeIfChanged(filepath.Join(out, "AwsGuards.lean"), b.String())
+}
+
+// genLock: the three methods of scaleLock (pkg/controller/scale_lock.go) as functions of the lock's fields
+func genLock(repo, out string) {
+	f := parse(filepath.Join(repo, "pkg/controller/scale_lock.go"))
+	meth := map[string]*ast.FuncDecl{}
+	recv := map[string]string{}
+	for _, d := range f.Decls {
+		if fd, ok := d.(*ast.FuncDecl); ok && fd.Recv != nil && len(fd.Recv.List) == 1 && strings.Contains(srcOf(fd.Recv.List[0].Type), "scaleLock") {
+			meth[fd.Name.Name] = fd
+			if len(fd.Recv.List[0].Names) > 0 {
+				recv[fd.Name.Name] = fd.Recv.List[0].Names[0].Name
+			}
+		}
+	}
+	var b strings.Builder
+	b.WriteString("/- GENERATED by /verif/extract from /repo/pkg/controller/scale_lock.go — do not edit. -/\nimport Esc.Gen.Arith\nnamespace Esc.Gen\n\n")
+	total := 0
+	mk := func(name, fn, endExpr string, envInit env, extraAtoms func(l string) map[string][2]string) (string, int) {
+		fd := meth[name]
+		if fd == nil || fd.Body == nil {
+			return "  " + endExpr + " -- method not found", 1
+		}
+		l := recv[name]
+		a := &ar{fn: fn, endExpr: endExpr}
+		a.fieldVars = map[string]string{l + ".isLocked": "isLocked", l + ".requestedNodes": "requested", l + ".lockTime": "lockTime"}
+		a.atoms = map[string][2]string{"time.Since(" + l + ".lockTime)": {"since", "I"}, l + ".minimumLockDuration": {"dur", "I"}, "time.Now()": {"now", "I"}}
+		for k, v := range extraAtoms(l) {
+			a.atoms[k] = v
+		}
+		a.splice = map[string][]ast.Stmt{}
+		if u := meth["unlock"]; u != nil && u.Body != nil && name != "unlock" {
+			hasReturn := false
+			ast.Inspect(u.Body, func(x ast.Node) bool {
+				if _, ok := x.(*ast.ReturnStmt); ok {
+					hasReturn = true
+				}
+				return true
+			})
+			if !hasReturn && recv["unlock"] == l {
+				a.splice[l+".unlock()"] = u.Body.List
+			}
+		}
+		all := append([]ast.Stmt{}, fd.Body.List...)
+		for _, sp := range a.splice {
+			all = append(all, sp...)
+		}
+		a.markInert(all, map[string]bool{})
+		return a.block(fd.Body.List, envInit, "  "), a.unknown
+	}
+	none := func(string) map[string][2]string { return map[string][2]string{} }
+	body, u := mk("locked", "lockedFn", "", env{"isLocked": kB, "requested": kI}, none)
+	total += u
+	b.WriteString("/-- `locked()`: (the answer, `isLocked` afterwards, `requestedNodes` afterwards); `since` = `time.Since(lockTime)`,\n    `dur` = `minimumLockDuration`. The call of `unlock()` is spliced in. -/\n")
+	b.WriteString("def lockLocked (since dur : Int) (isLocked : Bool) (requested : Int) : Bool × Bool × Int :=\n" + body + "\n\n")
+	body, u = mk("unlock", "unlockFn", "(isLocked, requested)", env{"isLocked": kB, "requested": kI}, none)
+	total += u
+	b.WriteString("/-- `unlock()`: (`isLocked`, `requestedNodes`) afterwards. -/\n")
+	b.WriteString("def lockUnlock (isLocked : Bool) (requested : Int) : Bool × Int :=\n" + body + "\n\n")
+	nodesParam := "nodes"
+	if fd := meth["lock"]; fd != nil && fd.Type.Params != nil && len(fd.Type.Params.List) == 1 && len(fd.Type.Params.List[0].Names) == 1 {
+		nodesParam = fd.Type.Params.List[0].Names[0].Name
+	}
+	body, u = mk("lock", "lockFn", "(isLocked, requested, lockTime)", env{"isLocked": kB, "requested": kI, "lockTime": kI},
+		func(string) map[string][2]string { return map[string][2]string{nodesParam: {"nodes", "I"}} })
+	total += u
+	b.WriteString("/-- `lock(nodes)`: (`isLocked`, `requestedNodes`, `lockTime`) afterwards; `now` = `time.Now()`. -/\n")
+	b.WriteString("def lockLock (nodes now : Int) (isLocked : Bool) (requested lockTime : Int) : Bool × Int × Int :=\n" + body + "\n\n")
+	fmt.Fprintf(&b, "def numLockUnknown : Nat := %d\n\nend Esc.Gen\n", total)
+	writeIfChanged(filepath.Join(out, "Lock.lean"), b.String())
 }
 
 func genReap(repo, out string) {
